@@ -469,6 +469,17 @@ def c12_r4(ctx, f):
     ctx.check(rid, seq == ["fmt:svg", "fmt:rect", "call:path", "call:image", "lit:</svg>"], fn.path + "/document-order", where_fn(fn), fn.path,
               "document assembly", "the document is not <svg> + background + paths + image + </svg> in this order", found=seq,
               sample=" + ".join(seq))
+    # every part is emitted on every path: removing its block must cut every path from entry to a return
+    rets = [b["id"] for b in fn.blocks if not b["cleanup"] and b["term"]["k"] == "ret"]
+    cond = []
+    for pc, tgt, src in strflow.pushes(fn):
+        reach = fn.reachable(removed_blocks=(pc.block,))
+        if any(r in reach for r in rets):
+            what = src["site"].skeleton()[:40] if src["kind"] == "fmt" else src.get("callee") or src.get("text") or src["kind"]
+            cond.append("%s (line %s)" % (what, pc.line))
+    ctx.check(rid, not cond, fn.path + "/document-unconditional", where_fn(fn), fn.path, "document assembly",
+              "a part of the document skeleton (head, background rectangle, paths, image, closing tag) is emitted only on some paths",
+              found=cond, sample="all %d document parts are emitted on every path" % len(seq))
     # path(self, qr) and image(self, n = qr.size) are called on the same builder and symbol
     for c in fn.calls(SVGB + "::path", SVGB + "::image"):
         for i, a in enumerate(c.args):
